@@ -9,7 +9,7 @@ DRIVERS = ["daemon", "alloc", "accept", "startup"]
 def run(ctx, out):
     dcheck.run_property(ctx, out, "C07", "mon_c07", n_quick=300, n_thorough=5000,
                         gen_kw=dict(ws_share=0.4, batches=0.1, malformed=0.06, faults=True),
-                        directed=directed.regressions() + directed.batch_orders() + directed.close_positions(ctx.thorough) + directed.orphan_routes())
+                        directed=directed.regressions() + directed.batch_orders() + directed.close_positions(ctx.thorough) + directed.orphan_routes() + directed.reauth_after_fetch())
     from vlib.props import alloc_tie
     alloc_tie.run_alloc_tie(ctx, out)
     # descriptor hygiene of the accept path: real linux_io.c against Cjet.Accept on every single/double fault position
